@@ -150,6 +150,14 @@ class SigmaListModifier(SigmaModifier[T, R]):
 
 
 ### Modifier Implementations ###
+def regexp_ends_with(regexp: str, tail: str) -> bool:
+    """Check if a regular expression ends with tail and the tail isn't escaped by a backslash."""
+    if not regexp.endswith(tail):
+        return False
+    head = regexp[: -len(tail)]
+    return (len(head) - len(head.rstrip("\\"))) % 2 == 0
+
+
 class SigmaContainsModifier(
     SigmaValueModifier[
         SigmaString | SigmaRegularExpression | SigmaFieldReference,
@@ -170,7 +178,7 @@ class SigmaContainsModifier(
             regexp_str = str(val.regexp)
             if regexp_str[:2] != ".*" and not regexp_str.startswith("^"):
                 val.regexp = SigmaString(".") + SpecialChars.WILDCARD_MULTI + val.regexp
-            if regexp_str[-2:] != ".*" and not regexp_str.endswith("$"):
+            if not regexp_ends_with(regexp_str, ".*") and not regexp_ends_with(regexp_str, "$"):
                 val.regexp += SigmaString(".") + SpecialChars.WILDCARD_MULTI
             val.compile()
         elif isinstance(val, SigmaFieldReference):
@@ -195,7 +203,7 @@ class SigmaStartswithModifier(
                 val += SpecialChars.WILDCARD_MULTI
         elif isinstance(val, SigmaRegularExpression):
             regexp_str = str(val.regexp)
-            if regexp_str[-2:] != ".*" and not regexp_str.endswith("$"):
+            if not regexp_ends_with(regexp_str, ".*") and not regexp_ends_with(regexp_str, "$"):
                 val.regexp += SigmaString(".") + SpecialChars.WILDCARD_MULTI
             val.compile()
         elif isinstance(val, SigmaFieldReference):
